@@ -436,6 +436,10 @@ fn boundary_classes(ctx: &mut Ctx, log: &crate::iosched::ReadLog, exp: &[Exp], w
 impl Monitor for M {
     fn case(&mut self, ctx: &mut Ctx) {
         let light = ctx.light();
+        if super::huge::wanted(ctx) {
+            // more than 4 GiB through one reader object
+            super::huge::over_4gib_through_one_reader(ctx, self.is_async);
+        }
         let sc = gen_stream(ctx, light);
         let fsel = ctx.rng.below(6);
         let (fname, filter): (&'static str, Option<&ProcessedDltFilterConfig>) = match fsel {
